@@ -34,21 +34,21 @@ type Violation struct {
 
 // UnitResult is what a worker reports for one unit of work.
 type UnitResult struct {
-	Unit        string      `json:"unit"`
-	Index       int         `json:"index"`
-	Evals       int64       `json:"evals"`       // executions of the real code compared with an oracle
-	States      int64       `json:"states"`      // choice-tree nodes / scheduler states visited
-	Transitions int64       `json:"transitions"` // choice-tree edges / scheduler steps taken
-	Distinct    int64       `json:"distinct"`    // distinct outcomes observed
-	Nontrivial  int64       `json:"nontrivial"`  // distinct outcomes that are non-trivial by the check's rule
-	Complete    bool        `json:"complete"`    // the unit's space was enumerated completely (no cap hit)
-	Caps        []string    `json:"caps,omitempty"`
-	Bounds      string      `json:"bounds,omitempty"`
-	Violations  []Violation `json:"violations,omitempty"`
-	Samples     []any       `json:"samples,omitempty"`
+	Unit        string           `json:"unit"`
+	Index       int              `json:"index"`
+	Evals       int64            `json:"evals"`       // executions of the real code compared with an oracle
+	States      int64            `json:"states"`      // choice-tree nodes / scheduler states visited
+	Transitions int64            `json:"transitions"` // choice-tree edges / scheduler steps taken
+	Distinct    int64            `json:"distinct"`    // distinct outcomes observed
+	Nontrivial  int64            `json:"nontrivial"`  // distinct outcomes that are non-trivial by the check's rule
+	Complete    bool             `json:"complete"`    // the unit's space was enumerated completely (no cap hit)
+	Caps        []string         `json:"caps,omitempty"`
+	Bounds      string           `json:"bounds,omitempty"`
+	Violations  []Violation      `json:"violations,omitempty"`
+	Samples     []any            `json:"samples,omitempty"`
 	Extra       map[string]int64 `json:"extra,omitempty"`
-	HarnessErr  string      `json:"harness_err,omitempty"`
-	WallS       float64     `json:"wall_s"`
+	HarnessErr  string           `json:"harness_err,omitempty"`
+	WallS       float64          `json:"wall_s"`
 }
 
 // Ctx is handed to a unit.
@@ -198,11 +198,11 @@ func WorkerMain(id, tier string, seed int64, deadlineUnix int64) {
 }
 
 var currentExec struct {
-	mu    sync.Mutex
-	start time.Time
-	desc  string
-	unit  string
-	idx   int
+	mu      sync.Mutex
+	start   time.Time
+	desc    string
+	unit    string
+	idx     int
 	hangSig string
 }
 
